@@ -1300,3 +1300,123 @@ func containsStr(l []string, s string) bool {
 	}
 	return false
 }
+
+// DOCINV — the helper that maps the normalised interval back is the inverse of the documented change of basis.
+//
+// InitTestPolynomial documents that inputs are normalised with `(2*x - a - b)/(b-a)`; the test polynomial is sampled
+// through `normalizeInv`, a one-expression function, which therefore has to undo exactly that map. With the interval
+// [-1, 1] of every test (a+b = 0, b-a = 2) most wrong inverses coincide with the right one.
+//
+// Frozen table (helper, documenting function). The documented expression (the parenthesised formula in x, a, b after
+// the words "change of basis") and the helper's return expression are both evaluated by the checker's own
+// four-operation interpreter at three sample triples with a+b != 0 and b-a != 2: helper(doc(x)) = x.
+var docInvTable = []struct{ helper, doc string }{
+	{"core/rgsw/blindrot.normalizeInv", "core/rgsw/blindrot.InitTestPolynomial"},
+}
+
+func scanDocInv(c *core.Ctx) []ob {
+	var out []ob
+	n := 0
+	type found struct {
+		expr string
+		params []string
+		pos  token.Pos
+	}
+	helpers := map[string]found{}
+	docs := map[string]string{}
+	c.FuncDecls(func(pk *packages.Package, file *ast.File, fd *ast.FuncDecl) {
+		if fd.Body == nil {
+			return
+		}
+		fkey := core.FuncKey(pk, fd)
+		for _, te := range docInvTable {
+			h, d := te.helper, te.doc
+			if c.IsFixture {
+				h, d = "", ""
+				if strings.HasSuffix(fkey, "unscaleBack") {
+					h = fkey
+				}
+				if strings.HasSuffix(fkey, "tableFor") {
+					d = fkey
+				}
+			}
+			if fkey == h && len(fd.Body.List) == 1 {
+				if rs, ok := fd.Body.List[0].(*ast.ReturnStmt); ok && len(rs.Results) == 1 {
+					var ps []string
+					for _, f := range fd.Type.Params.List {
+						for _, nm := range f.Names {
+							ps = append(ps, nm.Name)
+						}
+					}
+					helpers[te.helper] = found{exprString(rs.Results[0]), ps, fd.Pos()}
+				}
+			}
+			if fkey == d && fd.Doc != nil {
+				txt := strings.Join(strings.Fields(fd.Doc.Text()), " ")
+				if m := regexp.MustCompile(`change of basis (\([^.]*\)/\([^)]*\))`).FindStringSubmatch(txt); m != nil {
+					docs[te.helper] = m[1]
+				}
+			}
+		}
+	})
+	for _, te := range docInvTable {
+		n++
+		name := te.helper
+		if c.IsFixture {
+			name = "lvfixture.unscaleBack"
+		}
+		key := "DOCINV:" + name
+		h, okh := helpers[te.helper]
+		d, okd := docs[te.helper]
+		switch {
+		case !okh:
+			if c.IsFixture {
+				continue
+			}
+			out = append(out, incOb("DOCINV", key, "", "the helper is no longer a single return expression"))
+			continue
+		case !okd:
+			out = append(out, infoOb("DOCINV", key, c.Rel(h.pos), "the documenting function no longer states the change of basis: not decided"))
+			continue
+		}
+		bad := ""
+		for _, s := range [][3]float64{{0.3, -2, 5}, {-0.7, 1, 9}, {1.0, -8, -3}} {
+			x, a, b := s[0], s[1], s[2]
+			dp := &dfParser{s: d, env: map[string]float64{"x": x, "a": a, "b": b}}
+			y := dp.expr()
+			env := map[string]float64{}
+			if len(h.params) == 3 {
+				env[strings.ToLower(h.params[0])] = y
+				env[strings.ToLower(h.params[1])] = a
+				env[strings.ToLower(h.params[2])] = b
+			}
+			hp := &dfParser{s: h.expr, env: env}
+			back := hp.expr()
+			if dp.err != nil || hp.err != nil {
+				bad = fmt.Sprintf("cannot interpret (%v / %v)", dp.err, hp.err)
+				out = append(out, infoOb("DOCINV", key, c.Rel(h.pos), bad+": not decided"))
+				break
+			}
+			if math.Abs(back-x) > 1e-9 {
+				bad = fmt.Sprintf("for x=%g on [%g, %g] the documented normalisation gives %g and the helper maps it back to %g", x, a, b, y, back)
+				out = append(out, violOb("DOCINV", key, c.Rel(h.pos), fmt.Sprintf("%s returns `%s`, which is not the inverse of the documented change of basis %s: %s", name, h.expr, d, bad)))
+				break
+			}
+		}
+		if bad == "" {
+			out = append(out, okOb("DOCINV", key, c.Rel(h.pos), "the helper undoes the documented change of basis "+d, true))
+		}
+	}
+	c.Stats["docinv_sites"] = n
+	return out
+}
+
+func init() {
+	core.Register(&core.Rule{Name: "DOCINV", Props: []string{"C20"},
+		Doc: "the one-expression helper that maps the normalised interval back (frozen table) composed with the change of basis stated in the doc comment of the test-polynomial constructor is the identity at three sample triples (both expressions evaluated by the checker's four-operation interpreter)",
+		Run: func(c *core.Ctx) []ob {
+			out := scanDocInv(c)
+			out = append(out, control(c, "DOCINV", scanDocInv, "unscaleBack")...)
+			return out
+		}})
+}
